@@ -1,5 +1,5 @@
 (* C09 - Auto-profiling profiles exactly what was asked for.
-   Nothing but the statements; proofs live in Ast/{Select,SelectGen,TransformFacts,PropFacts}.v.
+   Nothing but the statements; proofs live in Ast/{Select,SelectGen,TransformFacts,Placement,PropFacts}.v.
 
    Model: Ast/AstLite.v (statements with line numbers), Ast/Transform.v
    (_profile_ast_tree, AstProfileTransformer, ImportFromTransformer,
@@ -7,9 +7,9 @@
    _ast_get_imports_from_tree / _find_modnames_in_tree_imports).
    [c_sel c] is the resolved selection (modnames_to_profile), [c_full c] says
    the script itself is selected, [pre c body] is the parsed file (relative
-   imports made absolute in -m mode). *)
+   imports made absolute in -m mode), [transform c body] the rewritten tree. *)
 From LP Require Import Prelude.Py Gen.Select
-     Ast.AstLite Ast.AuxStr Ast.Select Ast.Transform Ast.PropFacts.
+     Ast.AstLite Ast.AuxStr Ast.Select Ast.Transform Ast.TransformFacts Ast.PropFacts.
 
 (* When the script itself is selected, EVERY function definition at ANY depth (nested
    functions, methods, inside compound statements, async, already decorated; [funcs]
@@ -17,67 +17,59 @@ From LP Require Import Prelude.Py Gen.Select
    has one, in place; erasing the hooks gives back the program; every function ends up
    profiled.  For all trees, unbounded depth. *)
 Theorem C09_whole_script :
-  forall c body t',
-    c_full c = true -> transform c body = Ok t' ->
-    funcs t' = map deco_once (funcs (pre c body))
-    /\ erase t' = erase (pre c body)
-    /\ (forall f, In f (funcs t') -> has_profile (fh_decos f) = true).
+  forall c body,
+    c_full c = true ->
+    funcs (transform c body) = map deco_once (funcs (pre c body))
+    /\ erase (transform c body) = erase (pre c body)
+    /\ (forall f, In f (funcs (transform c body)) -> has_profile (fh_decos f) = true).
 Proof. exact whole_script. Qed.
 
 (* ... and on a program that does not itself use `profile`, each function has exactly one
    `profile` decorator, in the innermost (last) position, and nothing else is touched *)
 Theorem C09_whole_script_once_innermost :
-  forall c body t',
-    c_full c = true -> clean (pre c body) = true -> transform c body = Ok t' ->
-    erase t' = pre c body /\ (forall f, In f (funcs t') -> once_innermost f = true).
+  forall c body,
+    c_full c = true -> clean (pre c body) = true ->
+    erase (transform c body) = pre c body
+    /\ (forall f, In f (funcs (transform c body)) -> once_innermost f = true).
 Proof. exact whole_script_clean. Qed.
 
-(* Unless --prof-imports together with the whole script asks for all imports, a name is
-   handed to a registration call (at any depth) only if the selection demands it: nothing
-   from unselected modules is registered. *)
-Theorem C09_nothing_else_registered :
-  forall c body t',
-    transform c body = Ok t' -> c_full c = false \/ c_imports c = false ->
-    forall y, In y (regs t') ->
-              (exists k, In (k, y) (wanted (c_sel c) (pre c body))) \/ In y (regs (pre c body)).
-Proof. exact nothing_else_registered. Qed.
-
-(* exactly the names of the selection dict are handed to registration calls *)
-Theorem C09_registered_names :
-  forall c body t',
-    transform c body = Ok t' -> c_full c = false \/ c_imports c = false ->
-    exists d, select (c_sel c) (pre c body) = Ok d
-              /\ forall y, In y (regs t') <-> In y (map snd d) \/ In y (regs (pre c body)).
-Proof. exact registered_names. Qed.
-
-(* Selection, one direction (always true): every (statement index, name) that gets a
-   registration is the alias of a first top-level binding whose real name or parent is in S *)
-Theorem C09_selection_sound :
-  forall S body d, select S body = Ok d -> forall p, In p d -> In p (wanted S body).
-Proof. exact selection_sound. Qed.
-
-(* C09_selection_exact, the full two-sided statement
-     forall S body d, select S body = Ok d -> forall p, In p d <-> In p (wanted S body)
-   is FALSE of the faithful model: two selected names bound by ONE import statement share
-   the statement index, which is the dict key, so the later overwrites the earlier.
-   Witness: `from pkg import mod_a, mod_b` with pkg selected registers only mod_b.
-   (Replayed on the implementation: findings/C09-multi-name-import-statement.json.) *)
-Theorem C09_same_statement_refuted : ~ selection_exact_statement.
-Proof. exact selection_exact_refuted. Qed.
-
-(* what remains true: exactness whenever no import statement binds two selected names
-   (missing for the full statement: the dict must be keyed per binding, not per statement) *)
-Theorem C09_selection_exact_partial :
+(* C09_selection_exact, the full two-sided statement (true since the repair of the
+   multi-name import defect): the (statement index, name) pairs that get a registration are
+   EXACTLY the aliases of the first top-level bindings whose real name, or the parent of
+   whose real name, is in the selection - nothing missing, nothing extra; per import
+   statement in source order; one dict key per statement. *)
+Theorem C09_selection_exact :
   forall S body,
-    no_bare_relative body = true -> NoDup (map fst (wanted S body)) ->
-    select S body = Ok (wanted S body).
-Proof. exact selection_exact_partial. Qed.
+    (forall p, In p (dict_items (select S body)) <-> In p (wanted S body))
+    /\ (forall k, dict_names (select S body) k
+                  = map snd (filter (fun kv => Z.eqb (fst kv) k) (wanted S body)))
+    /\ NoDup (map fst (select S body)).
+Proof. exact selection_exact_order. Qed.
+
+(* the names handed to registration calls anywhere in the rewritten tree are exactly the
+   selected ones (unless --prof-imports together with the whole script asks for all imports):
+   nothing from unselected modules is registered *)
+Theorem C09_registered_names :
+  forall c body,
+    c_full c = false \/ c_imports c = false ->
+    forall y, In y (regs (transform c body))
+              <-> In y (map snd (wanted (c_sel c) (pre c body))) \/ In y (regs (pre c body)).
+Proof. exact regs_transform. Qed.
+
+(* each registration sits directly behind the import statement that binds its name, in
+   order, carrying that statement's line: the descending list.insert() loop of
+   _profile_ast_tree equals the interleaving [expand] *)
+Theorem C09_registration_follows_import :
+  forall c body,
+    fst (insert_regs (select (c_sel c) (pre c body)) (pre c body))
+    = expand (dict_names (select (c_sel c) (pre c body))) 0 (pre c body).
+Proof. exact registrations_follow_import. Qed.
 
 (* membership is on whole dotted names: a binding is registered only if its real name, or
    the parent of its real name, is literally an element of the selection *)
 Theorem C09_no_prefix_confusion :
-  forall S body d k nm,
-    select S body = Ok d -> In (k, nm) d ->
+  forall S body k nm,
+    In (k, nm) (dict_items (select S body)) ->
     exists m, In m (all_bindings body) /\ i_idx m = k /\ reg_name m = nm
               /\ (In (i_name m) S \/ In (parent (i_name m)) S).
 Proof. exact no_prefix_confusion. Qed.
@@ -88,24 +80,24 @@ Theorem C09_parent_is_whole_component :
   /\ (forall s, no_char dot s = true -> parent s = s).
 Proof. exact parent_whole_component. Qed.
 
-(* the matching functions regenerated from profmod_extractor.py are the model's *)
+(* the matching functions regenerated from profmod_extractor.py are the model's (and total) *)
 Theorem C09_translated_matching_agrees :
-  (forall body, gen_get_imports body = get_imports body)
+  (forall body, gen_get_imports body = Ok (get_imports body))
   /\ (forall S mdl, gen_find_modnames S mdl = Ok (find_modnames S mdl))
-  /\ (forall S body, gen_select S body = select S body).
+  /\ (forall S body, gen_select S body = Ok (select S body)).
 Proof. exact translated_agrees. Qed.
 
-(* Non-vacuity: a clean three-level program with a selection satisfying every hypothesis
-   above, and its rewrite. *)
+(* Non-vacuity: a clean three-level program whose first import statement binds TWO selected
+   names (and a star), its demanded pairs, the dict, and its rewrite. *)
 Theorem C09_nonvacuous :
-  clean nv_body = true /\ no_bare_relative nv_body = true
-  /\ NoDup (map fst (wanted ["pkg"] nv_body))
-  /\ wanted ["pkg"] nv_body = [(0, "mod_a")]
+  clean nv_body = true
+  /\ wanted ["pkg"] nv_body = [(0, "mod_a"); (0, "b")]
+  /\ select ["pkg"] nv_body = [(0, ["mod_a"; "b"])]
   /\ transform nv_cfg nv_body
-     = Ok [ImportFrom (Some "pkg") [("mod_a", None)] 0 1;
-           ProfCall "mod_a" (Some 1);
-           Import [("pkgx.mod_a", Some "z"); ("os", None)] 2;
-           FuncDef false "f" [DOther 7; DName "profile"]
-             [Compound 1 [(4, [FuncDef true "g" [DName "profile"] [Other 2 6] 5])] 4;
-              ClassDef "K" 0 [FuncDef false "m" [DName "staticmethod"; DName "profile"] [Other 3 9] 8] 7] 3].
+     = [ImportFrom (Some "pkg") [("mod_a", None); ("*", None); ("mod_b", Some "b")] 0 1;
+        ProfCall "mod_a" (Some 1); ProfCall "b" (Some 1);
+        Import [("pkgx.mod_a", Some "z"); ("os", None)] 2;
+        FuncDef false "f" [DOther 7; DName "profile"]
+          [Compound 1 [(4, [FuncDef true "g" [DName "profile"] [Other 2 6] 5])] 4;
+           ClassDef "K" 0 [FuncDef false "m" [DName "staticmethod"; DName "profile"] [Other 3 9] 8] 7] 3].
 Proof. exact c09_nonvacuous. Qed.
